@@ -264,9 +264,9 @@ static void packets_child(const void *job, size_t n) {
  * lc1, lost(lc1), new(lc1 at its old / another local address), a new-node notice without a lost one (board moved), a system reset,
  * a report from the interface.  After every event each report of a connected SecAck board has exactly one mirror, addressed to the
  * address the board has NOW, with the reported payload; nothing else is mirrored. */
-enum { RL_REP0, RL_LOST = 4, RL_NEW2, RL_NEW7, RL_MOVE7, RL_MOVE2, RL_RESET, RL_MASTER, RL_N };
-static const char *rl_evname(int ev) { static const char *n[RL_N] = {"occ from lc1", "free from lc1", "multiple8 from lc1", "position from lc1", "lost(lc1)", "new(lc1 local 2)", "new(lc1 local 7)", "new-without-lost(lc1 local 7)", "new-without-lost(lc1 local 2)", "bidib_send_sys_reset", "occ from master"}; return n[ev]; }
-static struct { int lc, present, logpos, counter; } RL; static cm_model_t RLM;
+enum { RL_REP0, RL_LOST = 4, RL_NEW2, RL_NEW7, RL_MOVE7, RL_MOVE2, RL_RESET, RL_MASTER, RL_LOSTHUB, RL_NEWHUB, RL_N };
+static const char *rl_evname(int ev) { static const char *n[RL_N] = {"occ from lc1", "free from lc1", "multiple8 from lc1", "position from lc1", "lost(lc1)", "new(lc1 local 2)", "new(lc1 local 7)", "new-without-lost(lc1 local 7)", "new-without-lost(lc1 local 2)", "bidib_send_sys_reset", "occ from master", "lost(hub booster2)", "new(hub booster2)"}; return n[ev]; }
+static struct { int lc, present, logpos, counter, hub, hub_present; } RL; static cm_model_t RLM;
 static void rl_expect(int node, uint8_t mtype, const uint8_t *d, int dl, const char *what) {
 	int found = 0;
 	for (; RL.logpos < SB.nlog; RL.logpos++) { if (!is_mirror(SB.log[RL.logpos].type)) continue;
@@ -293,6 +293,11 @@ static int rl_apply(int ev) {
 	const char *what = rl_evname(ev); uint8_t d[9];
 	if (ev < RL_LOST) { if (!RL.present) return 0; rl_report(RL.lc, ev, what); return 1; }
 	if (ev == RL_MASTER) { rl_report(0, 0, what); return 1; }
+	if (ev == RL_LOSTHUB || ev == RL_NEWHUB) {     /* another interface-class board (no children) leaves / returns: nothing changes for the SecAck boards */
+		int lost = ev == RL_LOSTHUB; if (lost != RL.hub_present) return 0;
+		if (lost) { SB.n[RL.hub].present = 0; RL.hub_present = 0; } else { if (SB.nn >= SB_MAXNODES - 1) return 0; RL.hub = sb_add_node(0, RLM.b[3].local, RLM.b[3].uid); RL.hub_present = 1; }
+		d[0] = ++SB.n[0].tab_version; d[1] = RLM.b[3].local; memcpy(d + 2, RLM.b[3].uid, 7); sb_send(0, lost ? MSG_NODE_LOST : MSG_NODE_NEW, d, 9);
+	} else
 	if (ev == RL_LOST) { if (!RL.present) return 0; SB.n[RL.lc].present = 0; RL.present = 0; d[0] = ++SB.n[0].tab_version; d[1] = SB.n[RL.lc].local; memcpy(d + 2, RLM.b[2].uid, 7); sb_send(0, MSG_NODE_LOST, d, 9); }
 	else if (ev == RL_RESET) {
 		/* the reset makes the library ask every detector board for its occupancy (MSG_BM_GET_RANGE); the simulated boards answer
@@ -319,11 +324,12 @@ static void relogin_child(const void *job, size_t n) {
 	vs_dev_t devs[VS_MAXDEV]; int nd; size_t pl; const uint8_t *p = job_parse(job, n, devs, &nd, &pl);
 	int len = p[1]; const uint8_t *ev = p + 2;
 	hx_child_begin(NULL, 0, 0, NULL, 0, 0);
-	cm_std(&RLM); RLM.b[2].nfeatures = 1; RLM.b[2].features[0] = (cm_feature_t) {0x03, 0x01}; cm_install(&RLM);
+	cm_std(&RLM); RLM.b[2].nfeatures = 1; RLM.b[2].features[0] = (cm_feature_t) {0x03, 0x01}; RLM.b[3].uid[0] |= 0x80;     /* booster2 is of the interface class: a hub without children */
+	cm_install(&RLM);
 	if (hx_start_normal(0)) res_infra("normal start failed");
 	hx_quiesce();
 	uint8_t *m; while ((m = bidib_read_message())) free(m); while ((m = bidib_read_error_message())) free(m);
-	memset(&RL, 0, sizeof RL); RL.lc = RLM.b[2].sbnode; RL.present = 1; vs_sleep_us(2500000); hx_quiesce(); RL.logpos = SB.nlog;
+	memset(&RL, 0, sizeof RL); RL.lc = RLM.b[2].sbnode; RL.present = 1; RL.hub = RLM.b[3].sbnode; RL.hub_present = 1; vs_sleep_us(2500000); hx_quiesce(); RL.logpos = SB.nlog;
 	for (int i = 0; i < len; i++) {
 		if (!rl_apply(ev[i])) { if (i == len - 1) res_printf("N 1\n"); else res_infra("inapplicable event inside a history"); res_finish(); }
 		if (res_nviol() && i < len - 1) res_infra("violation before the last event");
@@ -331,7 +337,7 @@ static void relogin_child(const void *job, size_t n) {
 	}
 	hx_emit_ledger_violations("C19");
 	char dump[300]; t_bidib_node_address_query aq = bidib_get_nodeaddr("lc1");
-	size_t o = (size_t) snprintf(dump, sizeof dump, "p%d l%d c%d a%02x%02x%02x v%d", RL.present, RL.present ? SB.n[RL.lc].local : 0, bidib_get_board_connected("lc1"), aq.address.top, aq.address.sub, aq.address.subsub, SB.n[0].tab_version);
+	size_t o = (size_t) snprintf(dump, sizeof dump, "h%d m%d p%d l%d c%d a%02x%02x%02x v%d", RL.hub_present, bidib_get_board_connected("master"), RL.present, RL.present ? SB.n[RL.lc].local : 0, bidib_get_board_connected("lc1"), aq.address.top, aq.address.sub, aq.address.subsub, SB.n[0].tab_version);
 	hx_hash_t h; hx_hash_init(&h); hx_hash_add(&h, dump, o);
 	res_printf("S %llx %llx\n", (unsigned long long) h.a, (unsigned long long) h.b);
 	res_finish();
